@@ -23,7 +23,10 @@ EXTRA = ("The checker also runs its cases in an interpreter started with -O, wit
          "another name, and with user-declared memory values and enums. It further re-runs its cases with logging enabled down to TRACE, "
          "reads every public attribute of result objects, re-uses one frame / bank / map object across many operations (including declaring "
          "further values between reads), derives vendor subclasses from the library's value classes, makes the gateway vanish at every "
-         "individual write, and feeds frames that answer nobody ahead of a reply. ")
+         "individual write, and feeds frames that answer nobody ahead of a reply. It also runs with sys.byteorder faked to the other byte "
+         "order, makes every public call the first call of a fresh process, passes IntEnum members as integer parameters, varies the data "
+         "byte of collision (framing-error) frames, edits the dict a mapper exposes, registers self-unregistering observers, and models gear "
+         "that obeys a device-type command only directly after its ENABLE DEVICE TYPE. ")
 for n in range(1, 21):
     pid = f"C{n:02d}"
     src = open(os.path.join(prevdir, f"agent{prev}-{pid}.txt")).read()
